@@ -13,10 +13,10 @@
         PDDL successor; st_equiv = the same set of facts and the same map of fluents (values Leibniz-equal).
    C16_any_order is pure PDDL (no model); C16_sequential / C16_refuse / C16_nops / C16_export are about the model
    alone; C16_joint combines them: its premise [seq_refines] is the statement of C03 at the states visited. *)
-From Coq Require Import List String Bool PrimFloat Permutation.
+From Coq Require Import List Ascii String Bool PrimFloat Permutation.
 From Verif Require Import Base.Result Base.Str Base.PyDict Model.Types Model.Domain Model.Exec Model.Plan Model.Joint
   Spec.Pddl Spec.Joint Spec.Subst Proofs.C20_Defs Proofs.C20_Subst Proofs.C03_Defs
-  Proofs.C04_Thread Proofs.C04_Link Proofs.C16_Commute Proofs.C16_Joint Proofs.C16_Main Proofs.C16_Examples.
+  Proofs.C04_Thread Proofs.C04_Link Proofs.C16_Commute Proofs.C16_Joint Proofs.C16_Main Proofs.C16_Lines Proofs.C16_Examples.
 Import ListNotations.
 
 (* ---------- PDDL level: order does not matter for non-interfering members ---------- *)
@@ -103,6 +103,31 @@ Theorem C16_link : forall d eps objs name a effs phi args ga s (o : orders),
     exists s', apply_call d eps (Some objs) true ord c s = Ok s' /\ st_equiv s' (m_step (d_types d) objs eps s m).
 Proof. exact link_joint_lemma. Qed.
 
+(* ---------- how a joint plan line is read ---------- *)
+(* the scanner for the regular expression returns exactly the parenthesised groups of a line
+   pre (g1) sep (g2) ... (gn) sep, every group a non-empty run of class characters, no "(" in pre / separators *)
+Theorem C16_line_groups : forall pre items,
+  no_lparen pre -> Forall (fun gs => ok_group (fst gs) /\ no_lparen (snd gs)) items ->
+  scan_groups (joint_line pre items) None = map fst items.
+Proof. exact scan_groups_line. Qed.
+
+(* ... and a joint action "[(name arg .. arg),(nop ), ...]" is read as its members, in order, nops included *)
+Theorem C16_line_reading : forall pre (ms : list ((Str.text * list Str.text * Str.text) * Str.text)),
+  no_lparen pre ->
+  Forall (fun ms => ok_member (fst ms) /\ no_lparen (snd ms)) ms ->
+  parse_joint_call (Str.t2s (joint_line pre (map (fun ms => (mtext (fst ms), snd ms)) ms))) =
+  Ok (map (fun ms => {| ac_name := Str.t2s (fst (fst (fst ms))); ac_args := map Str.t2s (snd (fst (fst ms))) |}) ms).
+Proof. exact parse_joint_call_line. Qed.
+
+(* its hypotheses hold for "[(move r1 l1 l2),(nop ), (load-truck t_1 p?)]<LF>" *)
+Theorem C16_line_example :
+  (no_lparen ["["%char] /\ Forall (fun ms => ok_member (fst ms) /\ no_lparen (snd ms)) jl_members) /\
+  parse_joint_call (Str.t2s (joint_line ["["%char] (map (fun ms => (mtext (fst ms), snd ms)) jl_members))) =
+  Ok [ {| ac_name := "move"; ac_args := ["r1"; "l1"; "l2"]%string |};
+       {| ac_name := "nop"; ac_args := [] |};
+       {| ac_name := "load-truck"; ac_args := ["t_1"; "p?"]%string |} ].
+Proof. exact (conj jl_hypotheses jl_reading). Qed.
+
 (* ---------- the exported multi-agent trajectory: one step per joint action, chained ---------- *)
 Theorem C16_export : forall d eps exporter_allow objs sch allow init lines ts,
   parse_joint_plan d eps exporter_allow objs sch allow init lines = Ok ts ->
@@ -163,7 +188,23 @@ Theorem C16_interference_matters :
   same_state (seq_apply jx_tt jx_objs jx_eps jx_state [m1; m4]) (seq_apply jx_tt jx_objs jx_eps jx_state [m4; m1]) = false.
 Proof. exact jx_interfering. Qed.
 
+(* the object table must reach joint execution (finding D63, repaired in /repo): the same model run WITHOUT the table -
+   the code before the repair - skips the forall effect of a member and executes a member whose forall precondition is
+   false; with the table the first is the PDDL successor and the second is refused *)
+Theorem C16_before_D63_refuted :
+  m_applicable dx_tt dx_objs jx_eps dx_state (dx_lock, ["l1"]) = true /\
+  m_applicable dx_tt dx_objs jx_eps dx_state (dx_alarm, ["l1"]) = false /\
+  same_state (result_state (apply_actions dx_dom jx_eps (Some dx_objs) id_schedule dx_cur [lock_l1] false))
+             (seq_apply dx_tt dx_objs jx_eps dx_state [(dx_lock, ["l1"])]) = true /\
+  apply_actions dx_dom jx_eps (Some dx_objs) id_schedule dx_cur [alarm_l1] false = Err EValue /\
+  is_ok (apply_actions dx_dom jx_eps None id_schedule dx_cur [lock_l1] false) = true /\
+  same_state (result_state (apply_actions dx_dom jx_eps None id_schedule dx_cur [lock_l1] false))
+             (seq_apply dx_tt dx_objs jx_eps dx_state [(dx_lock, ["l1"])]) = false /\
+  is_ok (apply_actions dx_dom jx_eps None id_schedule dx_cur [alarm_l1] false) = true.
+Proof. exact dx_object_table_needed. Qed.
+
 Print Assumptions C16_commute.
+Print Assumptions C16_before_D63_refuted.
 Print Assumptions C16_any_order.
 Print Assumptions C16_stays_applicable.
 Print Assumptions C16_nops.
@@ -172,6 +213,9 @@ Print Assumptions C16_allowed.
 Print Assumptions C16_refuse.
 Print Assumptions C16_joint.
 Print Assumptions C16_link.
+Print Assumptions C16_line_groups.
+Print Assumptions C16_line_reading.
+Print Assumptions C16_line_example.
 Print Assumptions C16_export.
 Print Assumptions C16_export_aborts.
 Print Assumptions C16_export_text.
